@@ -29,6 +29,19 @@ Theorem C10_opdef_names_owner_loaded :
   deserialize deser_t deser_v s = Ok e -> names_owner e.
 Proof. exact @deserialize_names_owner. Qed.
 
+(* several extensions and definition objects added to them in any pattern, including the same object added
+   to different extensions (add_* then stores a copy): every extension keeps the owner invariant, and adding
+   to one extension leaves the others as they were *)
+Theorem C10_opdef_names_owner_shared :
+  forall (T V M : Type) (hdrs : list (name * version * list name)) (objs : list (obj T V M)) p,
+  let w := {| w_exts := map (fun h => new_ext (fst (fst h)) (snd (fst h)) (snd h)) hdrs; w_objs := objs |} in
+  forall e, In e (w_exts (share_run w p)) -> names_owner e.
+Proof. exact @shared_names_owner. Qed.
+Theorem C10_add_leaves_other_extensions :
+  forall (T V M : Type) (w : world T V M) ij k, k <> fst ij ->
+  nth_error (w_exts (share_step w ij)) k = nth_error (w_exts w) k.
+Proof. exact @share_frame. Qed.
+
 (* any document that loads (e.g. one written by another tool): what is written back is a fixed point of
    load-and-write and names the owner in every operation *)
 Theorem C10_reload_fixed_point :
@@ -73,6 +86,8 @@ Proof. exact (conj std_files_nonempty_l helpers_nonempty_l). Qed.
 Print Assumptions C10_ext_roundtrip.
 Print Assumptions C10_opdef_names_owner_built.
 Print Assumptions C10_opdef_names_owner_loaded.
+Print Assumptions C10_opdef_names_owner_shared.
+Print Assumptions C10_add_leaves_other_extensions.
 Print Assumptions C10_reload_fixed_point.
 Print Assumptions C10_type_params_roundtrip.
 Print Assumptions C10_bundled_eq_spec.
